@@ -9,6 +9,9 @@ package main
 // is transparent, so verdicts there do not depend on this machinery.
 
 import (
+	"go/constant"
+	"go/token"
+	"go/types"
 	"sort"
 	"strings"
 
@@ -249,9 +252,12 @@ func framesUnder(root *ssa.Function) []*frame {
 }
 
 type vpoint struct {
-	fr  *frame
-	blk *ssa.BasicBlock
-	idx int
+	fr   *frame
+	blk  *ssa.BasicBlock
+	pred *ssa.BasicBlock // (unused marker kept for symmetry)
+	benv map[*ssa.Phi]ssa.Value // the operand each boolean phi took on this path
+	bk   string
+	idx  int
 	ret map[*ssa.Call]*ssa.Return // path-sensitive: through which return each helper call on this path came back
 	rk  string
 }
@@ -271,14 +277,23 @@ func viPathExists(root *ssa.Function, from, to ssa.Instruction, cutEdge EdgePred
 	var work []vpoint
 	var cur vpoint
 	pushR := func(fr *frame, b *ssa.BasicBlock, i int, ret map[*ssa.Call]*ssa.Return, rk string) {
-		k := fr.key + "|" + b.Parent().Name() + "#" + itoa(b.Index) + ":" + itoa(i) + "|" + rk
+		k := fr.key + "|" + b.Parent().Name() + "#" + itoa(b.Index) + ":" + itoa(i) + "|" + rk + "|" + cur.bk
 		if seen[k] {
 			return
 		}
 		seen[k] = true
-		work = append(work, vpoint{fr, b, i, ret, rk})
+		work = append(work, vpoint{fr: fr, blk: b, idx: i, ret: ret, rk: rk, benv: cur.benv, bk: cur.bk})
 	}
 	push := func(fr *frame, b *ssa.BasicBlock, i int) { pushR(fr, b, i, cur.ret, cur.rk) }
+	pushFrom := func(fr *frame, b, pred *ssa.BasicBlock) {
+		benv, bk := boolPhiEnv(cur.benv, cur.bk, b, pred)
+		k := fr.key + "|" + b.Parent().Name() + "#" + itoa(b.Index) + ":0|" + cur.rk + "|" + bk
+		if seen[k] {
+			return
+		}
+		seen[k] = true
+		work = append(work, vpoint{fr: fr, blk: b, idx: 0, ret: cur.ret, rk: cur.rk, benv: benv, bk: bk})
+	}
 	if from == nil {
 		push(newFrame(root, nil, nil), root.Blocks[0], 0)
 	} else {
@@ -331,18 +346,22 @@ func viPathExists(root *ssa.Function, from, to ssa.Instruction, cutEdge EdgePred
 			continue
 		}
 		if iff, ok := b.Instrs[len(b.Instrs)-1].(*ssa.If); ok {
+			cond := resolveBoolPhi(iff.Cond, pt.benv)
 			for i, br := range []bool{true, false} {
-				if cutEdge != nil && cutEdge(iff.Cond, br) {
+				if k, isK := constBool(cond); isK && k != br {
 					continue
 				}
-				if len(pt.ret) > 0 && infeasibleEdge(iff.Cond, br) {
+				if cutEdge != nil && cutEdge(cond, br) {
+					continue
+				}
+				if len(pt.ret) > 0 && infeasibleEdge(cond, br) {
 					continue // contradicts the value the helper returned on this path
 				}
-				push(fr, b.Succs[i], 0)
+				pushFrom(fr, b.Succs[i], b)
 			}
 		} else {
 			for _, s := range b.Succs {
-				push(fr, s, 0)
+				pushFrom(fr, s, b)
 			}
 		}
 	}
@@ -453,14 +472,23 @@ func viPathToSite(root *ssa.Function, s Site, cutEdge EdgePred, cutInstr func(ss
 	var work []vpoint
 	var cur vpoint
 	pushR := func(fr *frame, b *ssa.BasicBlock, i int, ret map[*ssa.Call]*ssa.Return, rk string) {
-		k := fr.key + "|" + b.Parent().Name() + "#" + itoa(b.Index) + ":" + itoa(i) + "|" + rk
+		k := fr.key + "|" + b.Parent().Name() + "#" + itoa(b.Index) + ":" + itoa(i) + "|" + rk + "|" + cur.bk
 		if seen[k] {
 			return
 		}
 		seen[k] = true
-		work = append(work, vpoint{fr, b, i, ret, rk})
+		work = append(work, vpoint{fr: fr, blk: b, idx: i, ret: ret, rk: rk, benv: cur.benv, bk: cur.bk})
 	}
 	push := func(fr *frame, b *ssa.BasicBlock, i int) { pushR(fr, b, i, cur.ret, cur.rk) }
+	pushFrom := func(fr *frame, b, pred *ssa.BasicBlock) {
+		benv, bk := boolPhiEnv(cur.benv, cur.bk, b, pred)
+		k := fr.key + "|" + b.Parent().Name() + "#" + itoa(b.Index) + ":0|" + cur.rk + "|" + bk
+		if seen[k] {
+			return
+		}
+		seen[k] = true
+		work = append(work, vpoint{fr: fr, blk: b, idx: 0, ret: cur.ret, rk: cur.rk, benv: benv, bk: bk})
+	}
 	push(newFrame(root, nil, nil), root.Blocks[0], 0)
 	for len(work) > 0 {
 		pt := work[len(work)-1]
@@ -499,18 +527,22 @@ func viPathToSite(root *ssa.Function, s Site, cutEdge EdgePred, cutInstr func(ss
 			continue
 		}
 		if iff, ok := b.Instrs[len(b.Instrs)-1].(*ssa.If); ok {
+			cond := resolveBoolPhi(iff.Cond, pt.benv)
 			for i, br := range []bool{true, false} {
-				if cutEdge != nil && cutEdge(iff.Cond, br) {
+				if k, isK := constBool(cond); isK && k != br {
 					continue
 				}
-				if len(pt.ret) > 0 && infeasibleEdge(iff.Cond, br) {
+				if cutEdge != nil && cutEdge(cond, br) {
+					continue
+				}
+				if len(pt.ret) > 0 && infeasibleEdge(cond, br) {
 					continue // contradicts the value the helper returned on this path
 				}
-				push(fr, b.Succs[i], 0)
+				pushFrom(fr, b.Succs[i], b)
 			}
 		} else {
 			for _, sc := range b.Succs {
-				push(fr, sc, 0)
+				pushFrom(fr, sc, b)
 			}
 		}
 	}
@@ -553,4 +585,74 @@ func retKey(m map[*ssa.Call]*ssa.Return) string {
 	}
 	sort.Strings(parts)
 	return strings.Join(parts, ";")
+}
+
+// boolPhiEnv extends the path's record of boolean phi operands when block b is entered from pred.
+func boolPhiEnv(env map[*ssa.Phi]ssa.Value, key string, b, pred *ssa.BasicBlock) (map[*ssa.Phi]ssa.Value, string) {
+	idx := -1
+	for i, p := range b.Preds {
+		if p == pred {
+			idx = i
+		}
+	}
+	if idx < 0 {
+		return env, key
+	}
+	var out map[*ssa.Phi]ssa.Value
+	for _, in := range b.Instrs {
+		phi, ok := in.(*ssa.Phi)
+		if !ok {
+			break
+		}
+		if bt, isB := phi.Type().Underlying().(*types.Basic); !isB || bt.Kind() != types.Bool {
+			continue
+		}
+		if out == nil {
+			out = map[*ssa.Phi]ssa.Value{}
+			for k, v := range env {
+				out[k] = v
+			}
+		}
+		out[phi] = resolveBoolPhi(phi.Edges[idx], env)
+	}
+	if out == nil {
+		return env, key
+	}
+	var parts []string
+	for k, v := range out {
+		parts = append(parts, k.Name()+"="+v.Name())
+	}
+	sort.Strings(parts)
+	return out, strings.Join(parts, ",")
+}
+
+// resolveBoolPhi replaces a boolean phi (possibly under negations) by the operand it took on the current path.
+func resolveBoolPhi(c ssa.Value, env map[*ssa.Phi]ssa.Value) ssa.Value {
+	if len(env) == 0 {
+		return c
+	}
+	neg := false
+	x := c
+	for i := 0; i < 4; i++ {
+		if u, ok := x.(*ssa.UnOp); ok && u.Op == token.NOT {
+			x, neg = u.X, !neg
+			continue
+		}
+		break
+	}
+	phi, ok := x.(*ssa.Phi)
+	if !ok {
+		return c
+	}
+	v, ok := env[phi]
+	if !ok {
+		return c
+	}
+	if !neg {
+		return v
+	}
+	if k, isK := constBool(v); isK {
+		return ssa.NewConst(constant.MakeBool(!k), v.Type())
+	}
+	return c
 }
